@@ -130,4 +130,14 @@ example :
     ((s.readLoopS d [none, some 3, none]).1.map (fun p => (p.1.hdr.hbh, p.2))) = [(1, 7), (2, 3)] := by
   decide
 
+/-- non-vacuity of `C19_whole_streams`: in the schedule above stream 7's bytes are one complete
+    message and nothing of stream 7 is left when the loop stops -/
+example :
+    let d : DictFn := { cmdRules := fun _ _ => some (1, 1), avpType := fun _ _ _ => 0 }
+    let m1 : Bytes := [1,0,0,20,0x80,0,1,1, 0,0,0,0, 0,0,0,1, 0,0,0,1]
+    let m2 : Bytes := [1,0,0,20,0x80,0,1,1, 0,0,0,0, 0,0,0,2, 0,0,0,2]
+    let s : SS := { bufs := fun _ => [], chunks := [(7, m1.take 5), (3, m2), (7, (m1.drop 5).take 10), (7, m1.drop 15)], fin := .eof }
+    s.streamBytes 7 = m1 ∧ (s.readLoopS d [none, some 3, none]).2.streamBytes 7 = [] := by
+  decide
+
 end DV.Props.C19
